@@ -1059,6 +1059,8 @@ def c16(tier, replay_file=None):
         res.coverage.update(e2e)
         if not res.tool_errors:
             res.coverage.update(supervisor_runs(res, exe, wd, tier))
+        if not res.tool_errors:
+            res.coverage.update(fleet_runs(res, exe, wd, tier))
         res.assumptions = ["the finite universe of device names and exclude patterns of DevList.tla, with glob matching given extensionally there",
                            "which entries are keyboard-like is the tool's own heuristic (compared with DevList!Keyboardish as DRIFT only)"]
     except ToolError as e:
@@ -1083,13 +1085,13 @@ def sv_entry(name, sysfs, ev, key):
             'H: Handlers=sysrq kbd event0 leds \nB: PROP=0\nB: EV=%s\nB: KEY=%s\nB: MSC=10\n\n' % (name, sysfs, ev, key))
 
 
-def sv_namespace(d):
+def sv_namespace(d, universe=None):
     """fabricated /sys/devices and device list for one recorder process; returns (devs, always)"""
     import shutil
     shutil.rmtree(d, ignore_errors=True)
     os.makedirs(os.path.join(d, "sys"))
     devs, always = [], ""
-    for id_, name, sysfs, ev, key, n in SV_UNIVERSE:
+    for id_, name, sysfs, ev, key, n in (universe or SV_UNIVERSE):
         ed = os.path.join(d, "sys", sysfs.lstrip("/").replace("devices/", "", 1), "event%d" % n)
         os.makedirs(ed, exist_ok=True)
         open(os.path.join(ed, "uevent"), "w").write("MAJOR=13\nMINOR=%d\nDEVNAME=input/event%d\n" % (64 + n, n))
@@ -1248,6 +1250,152 @@ def supervisor_runs(res, exe, wd, tier, replay_case=None):
                                     "worker that fails on a device that stays plugged in leaves the device grabbed by a descriptor nobody closes, so every re-open fails with EBUSY and the "
                                     "keyboard is dead until the process exits; unplugging is not watched (no IN_DELETE), so a finished worker is only reaped, and its device re-opened, at the "
                                     "next CREATE/ATTRIB event in /dev/input"})
+    return evid
+
+
+# ------------------------------------------------------------------ the static fleet: --all-keyboards and --dev-file down to the opens and the joins
+
+FL_UNIVERSE = SV_UNIVERSE + [("k2", "Kbd Two", "/devices/pci0000:00/usb1/1-5/input/input10", "120013", SV_FULL, 5)]
+
+
+def fleet_runs(res, exe, wd, tier, replay_case=None):
+    """`remap --all-keyboards` (do_remapping_loop_all_devices) and `remap --dev-file ... --only-if-keyboard` (do_remapping_loop_multiple_devices ->
+    filter_devices_verbose), both down to do_remapping_loop_these_devices: the real functions in a mount namespace with the device nodes scripted
+    (`tmv fleet`). TLC checks the design (spec/Fleet.tla: invariants, the liveness property Returns, three expectations it must REFUTE), enumerates
+    its finished behaviours as schedules (which keyboards are listed, which cannot be opened, in which order the workers end and how), and validates
+    the recorded calls of every run against spec/FleetTrace.tla. C16-fleet-... clauses are C16 where the devices are actually opened; FL-... clauses are
+    auxiliary (AUX lines), never a VIOLATION."""
+    import subprocess, shutil
+    ok, why = namespaces_available()
+    if not ok:
+        res.notes.append("fleet runs skipped: cannot create a mount namespace here (%s)" % why)
+        return {"fleet_runs": 0}
+    t0 = time.time()
+    fd = os.path.join(wd, "fl")
+    shutil.rmtree(fd, ignore_errors=True)
+    os.makedirs(fd)
+    evid = {}
+    if replay_case is None:
+        with open(os.path.join(fd, "FLG.tla"), "w") as f:
+            f.write('---- MODULE FLG ----\nEXTENDS Fleet\nMCDevs == <<"k0", "k1", "k2">>\n====\n')
+        invs = ["TypeOK", "OpensInListOrder", "AllOrNothing", "OnlyTheSelected", "AllSelectedOpened", "OkMeansAllOk", "FirstErrorInListOrder", "OpenErrorIsTheFirstBad"]
+        with open(os.path.join(fd, "FLD.cfg"), "w") as f:
+            f.write("SPECIFICATION Spec\nCONSTANTS\n  Devs <- MCDevs\n  Emit = TRUE\n" + "".join("INVARIANT %s\n" % i for i in invs + ["EmitSchedule"]) + "PROPERTY Returns\nCHECK_DEADLOCK FALSE\n")
+        g = TlcRun(fd, "FLG.tla", "FLD.cfg", name="FLD", workers=2, mem="2g", timeout=900).run()
+        if g.invariant_violated() or g.other_error():
+            res.tool_errors.append("Fleet.tla (design): %s" % (g.invariant_violated() or g.other_error()))
+            return {}
+        reach = {}
+        for inv in ("FailureReportedAtOnce", "ReturnMeansAllEnded", "FailedStartLeavesNothingGrabbed"):
+            with open(os.path.join(fd, "FLR_%s.cfg" % inv), "w") as f:
+                f.write("SPECIFICATION Spec\nCONSTANTS\n  Devs <- MCDevs\n  Emit = FALSE\nINVARIANT %s\nCHECK_DEADLOCK FALSE\n" % inv)
+            r = TlcRun(fd, "FLG.tla", "FLR_%s.cfg" % inv, name="FLR_" + inv, workers=1, mem="1g", timeout=300).run()
+            reach[inv] = bool(r.invariant_violated())
+        import e2
+        scheds = e2.schedules_of(g)
+        if not scheds:
+            res.tool_errors.append("Fleet.tla printed no schedule")
+            return {}
+        scheds.sort(key=lambda s: json.dumps(s, sort_keys=True))
+        want = 150 if tier == "quick" else len(scheds)
+        sel = scheds[::max(1, len(scheds) // want)][:want]
+        # both discovery paths for every schedule; with --dev-file the paths given are every node of the universe (also the excluded keyboard, the mouse,
+        # the virtual keyboard), or - every third case - all but one of the listed keyboards
+        nodes = {u[0]: "/dev/input/event%d" % u[5] for u in FL_UNIVERSE}
+        cases = []
+        for i, s in enumerate(sel):
+            cases.append({"id": "FL-%d-all" % i, "mode": "all", "present": s["present"], "bad": s["bad"], "ends": s["ends"], "given": []})
+            given = [d for d in ("k0", "k1", "k2") if not (i % 3 == 2 and s["present"] and d == s["present"][i % len(s["present"])])]
+            g_present = [d for d in s["present"] if d in given]
+            # (a schedule whose keyboards are not all given is only usable when the dropped keyboard plays no part in it)
+            if given != ["k0", "k1", "k2"] and (set(s["bad"]) - set(given) or any(e[0] not in given for e in s["ends"])):
+                given = ["k0", "k1", "k2"]
+            cases.append({"id": "FL-%d-files" % i, "mode": "files", "present": s["present"], "bad": s["bad"], "ends": s["ends"], "given": given,
+                          "files": [nodes[d] for d in given] + [nodes["x"], nodes["m"], nodes["v"]]})
+        evid.update({"fleet_design_states": g.counts()[1], "fleet_schedules_enumerated": len(scheds), "fleet_design_observations_refuted_by_TLC": reach,
+                     "fleet_design_liveness": "Returns (if every worker ends in the end, the function returns in the end) checked by TLC under weak fairness of the function's own steps"})
+    else:
+        cases = [replay_case]
+    nchunks = max(1, min(PROCS, len(cases) // 20 or 1))
+    procs = []
+    for i in range(nchunks):
+        d = os.path.join(fd, "ns%d" % i)
+        devs, always = sv_namespace(d, FL_UNIVERSE)
+        cp = os.path.join(d, "cases.ndjson")
+        write_ndjson(cp, [dict(c, devs=devs, always=always, excludes=["Excl*"], devices_file=os.path.join(d, "devices"),
+                               always_nodes=["/dev/input/event%d" % u[5] for u in FL_UNIVERSE if not u[0].startswith("k")]) for c in cases[i::nchunks]])
+        tp = os.path.join(d, "trace.ndjson")
+        setup = "mount --bind %s/devices /proc/bus/input/devices && mount --bind %s/sys /sys/devices && mount -t tmpfs tmpfs /dev && mkdir -p /dev/input && " % (d, d)
+        with open(tp, "w") as out:
+            procs.append((subprocess.Popen(["unshare", "-m", "sh", "-c", setup + "exec %s fleet %s" % (exe, cp)], stdout=out, stderr=subprocess.PIPE), tp))
+    traces = []
+    for p, tp in procs:
+        try:
+            _, err = p.communicate(timeout=900)
+        except subprocess.TimeoutExpired:
+            p.kill()
+            res.tool_errors.append("tmv fleet did not finish within 900 s")
+            return {}
+        if p.returncode != 0:
+            res.tool_errors.append("tmv fleet exited with %s: %s" % (p.returncode, (err or b"").decode("utf-8", "replace")[-400:]))
+            return {}
+        traces.append(tp)
+    with open(os.path.join(fd, "FLT.tla"), "w") as f:
+        f.write("---- MODULE FLT ----\nEXTENDS FleetTrace\n====\n")
+    with open(os.path.join(fd, "FLT.cfg"), "w") as f:
+        f.write("SPECIFICATION Spec\nPOSTCONDITION Accepted\nCHECK_DEADLOCK FALSE\n")
+    truns = [TlcRun(fd, "FLT.tla", "FLT.cfg", env={"TRACE": t}, name="flt%d" % i, deque=True, mem="2g", timeout=1200) for i, t in enumerate(traces)]
+    run_tlc_many(truns)
+    regs = [0] * 8
+    allbad = []
+    for r in truns:
+        err = r.other_error()
+        acc = r.printed("FL-ACCEPTED")
+        if err or not acc:
+            res.tool_errors.append("%s: %s" % (r.name, err or "no acceptance line"))
+            continue
+        v = parse_tla_value(acc[0])
+        if v[1] != v[2]:
+            res.tool_errors.append("%s: fleet trace not consumed: %d of %d lines" % (r.name, v[1], v[2]))
+        regs = [a + b for a, b in zip(regs, v[3])]
+        for line in r.printed("FL-BAD"):
+            pv = parse_tla_value(line)
+            allbad.append((pv[1], sorted(pv[2])))
+    env = [(t, c) for t, cl in allbad for c in cl if c.startswith("ENV-")]
+    if env:
+        res.tool_errors.append("the recorder's fleet environment misbehaved: %s" % env[:3])
+    by_id = {c["id"]: c for c in cases}
+    aux, c16bad = {}, []
+    for t, cl in allbad:
+        mine = [c for c in cl if c.startswith("C16-")]
+        if mine:
+            c16bad.append((t, mine))
+        for c in cl:
+            if c.startswith("FL-"):
+                aux.setdefault(c, []).append(t)
+    for c, ts in sorted(aux.items()):
+        log("AUX: fleet (not a listed property): %s in %d runs, e.g. %s" % (c, len(ts), ts[0]))
+    log("[fleet] %d runs of the real do_remapping_loop_all_devices / do_remapping_loop_multiple_devices in mount namespaces: %d open attempts, %d workers started, %d ended; "
+        "returned a worker's error %d times, an open error %d times, Ok %d times; a failure waited behind an earlier listed worker in %d runs; C16 clauses failing in %d runs, auxiliary clauses in %d; %.1fs"
+        % (regs[0], regs[1], regs[2], regs[3], regs[4], regs[5], regs[6], regs[7], len(c16bad), sum(len(t) for t in aux.values()), time.time() - t0))
+    if replay_case is not None:
+        return {"bad": c16bad}
+    if not res.tool_errors and (regs[0] == 0 or regs[1] == 0 or regs[2] == 0 or regs[3] == 0 or regs[4] == 0 or regs[5] == 0 or regs[6] == 0):
+        res.tool_errors.append("vacuous fleet runs: registers %s" % regs)
+    for t, cl in c16bad[:5]:
+        res.violation(",".join(cl), {"engine": "E3-fleet", "case": by_id.get(t)})
+    if len(c16bad) > 5:
+        res.more_violations += len(c16bad) - 5
+    evid.update({"fleet_runs": regs[0], "fleet_open_attempts": regs[1], "fleet_workers_started": regs[2], "fleet_workers_ended": regs[3],
+                 "fleet_returned_worker_error": regs[4], "fleet_returned_open_error": regs[5], "fleet_returned_ok": regs[6],
+                 "fleet_failure_waited_behind_an_earlier_worker": regs[7], "fleet_auxiliary_clauses_failing": {c: len(t) for c, t in aux.items()},
+                 "fleet_how": "the real do_remapping_loop_all_devices and do_remapping_loop_multiple_devices (filter_devices_verbose) under unshare -m (real list_keyboards / list_input_devices / "
+                              "flag_excluded* on a fabricated device list, /sys/devices and /dev/input; real open_device, worker threads and joins; device nodes scripted), schedules enumerated by "
+                              "TLC from spec/Fleet.tla, every recorded call validated against spec/FleetTrace.tla",
+                 "fleet_note": "auxiliary except the C16-fleet clauses. Fleet.tla documents what the static fleet gives (devices opened in list order, all or nothing, the first error in list order "
+                               "is returned, Ok only when every worker returned Ok, it returns once every worker has ended) and what it does not (observations, each refuted by TLC): a worker's "
+                               "failure is reported only after every worker listed before it has ended; the function then returns (and the process exits) while later listed keyboards are still "
+                               "being remapped; a failing open leaves the keyboards opened before it grabbed and unserved until the process exits"})
     return evid
 
 
